@@ -16,8 +16,20 @@ if "--crate" in args:
     i = args.index("--crate")
     key = args[i + 1]
     del args[i:i + 2]
+ds = "--desugar" in args
+if ds:
+    args.remove("--desugar")
+nf = "--nf" in args
+if nf:
+    args.remove("--nf")
 crates, th, _ = extract.load(tag)
 for b in crates[key].bodies.values():
     if not args or any(a in b.name for a in args):
+        if ds:
+            from . import desugar
+            b = desugar.desugar(crates[key], b)
+        if nf:
+            from .rules import common
+            b = common.normal_form(crates[key], b)
         print(pp.body_s(b.j))
         print()
